@@ -291,11 +291,16 @@ def puml_files():
         notags.write_text("[a] --> [b]\n")
         nostart = d / "nostart.puml"
         nostart.write_text("[a] --> [b]\n@enduml\n")
-        _PUML.update(good=str(good), notags=str(notags), nostart=str(nostart), dir=str(d))
+        noend = d / "noend.puml"
+        noend.write_text("some text\n@startuml\n[a] --> [b]\n")
+        swapped = d / "swapped.puml"  # an end tag in front of the start tag is not a pair of tags around a diagram
+        swapped.write_text("@enduml\n[a] --> [b]\n@startuml\n")
+        _PUML.update(good=str(good), notags=str(notags), nostart=str(nostart), noend=str(noend), swapped=str(swapped), dir=str(d))
     return _PUML
 
 
-D_OPS = [("from_file", "good"), ("from_file", "notags"), ("from_file", "nostart"), ("with_base_module", "r"),
+D_OPS = [("from_file", "good"), ("from_file", "notags"), ("from_file", "nostart"), ("from_file", "noend"), ("from_file", "swapped"),
+         ("with_base_module", "r"),
          ("base_module_included_in_module_names",)]
 
 
